@@ -121,6 +121,7 @@ type Shared struct {
 	NowBase   int64
 	Deadline  time.Time
 	AllocBound int64
+	NowWindow int64
 	Property  string
 	FreshMs   int
 	fnInfos   syncMap
@@ -129,7 +130,7 @@ type Shared struct {
 // Clone returns a copy with its own function-info cache.
 func (sh *Shared) Clone() *Shared {
 	return &Shared{Prog: sh.Prog, Pkgs: sh.Pkgs, InitAllow: sh.InitAllow, Noop: sh.Noop, Subst: sh.Subst, UFs: sh.UFs, RtErrType: sh.RtErrType,
-		AllocBound: sh.AllocBound, Property: sh.Property, FreshMs: sh.FreshMs, VerifT: sh.VerifT, LoopBound: sh.LoopBound, InstrBudget: sh.InstrBudget, Known: sh.Known, Bounds: sh.Bounds, NowBase: sh.NowBase, Deadline: sh.Deadline}
+		AllocBound: sh.AllocBound, NowWindow: sh.NowWindow, Property: sh.Property, FreshMs: sh.FreshMs, VerifT: sh.VerifT, LoopBound: sh.LoopBound, InstrBudget: sh.InstrBudget, Known: sh.Known, Bounds: sh.Bounds, NowBase: sh.NowBase, Deadline: sh.Deadline}
 }
 
 type Exec struct {
